@@ -66,7 +66,7 @@ def main():
             meta["note"] = EXTRA[key]
         # the check was extended after reading the agent's report and before the first trial: the check as it
         # stood would (probably) have missed the change
-        meta["strengthened_before_first_trial"] = key in ("C11-a", "C11-b", "C15-a", "C15-b", "C16-b", "C26-b", "C20-b", "C09-a", "C13-a", "C17-a")
+        meta["strengthened_before_first_trial"] = key in ("C11-a", "C11-b", "C15-a", "C15-b", "C16-b", "C26-b", "C20-b", "C09-a", "C13-a", "C17-a", "C19-a", "C03-a")
         json.dump(meta, open(os.path.join(out, "meta.json"), "w"), indent=1)
         print(key, ver.get("verdict"), [(r["check"], r["caught"]) for r in runs])
 
